@@ -20,6 +20,9 @@ type MemDevice struct {
 	CorruptReads int
 	// LastReadOff is the offset of the most recent ReadAt.
 	LastReadOff int64
+	// Reads counts ReadAt calls; FirstCorruptOff is the offset of the most recent read that was corrupted.
+	Reads           int
+	FirstCorruptOff int64
 	// OnWrite is called (without the lock) before a write is applied; it may block (gating).
 	OnWrite func(off int64, p []byte)
 	// OnRead is called (without the lock) before a read is served.
@@ -45,7 +48,9 @@ func (d *MemDevice) ReadAt(p []byte, off int64) (int, error) {
 	}
 	n := copy(p, d.Data[off:])
 	d.LastReadOff = off
+	d.Reads++
 	if d.CorruptReads > 0 && n > 0 {
+		d.FirstCorruptOff = off
 		d.CorruptReads--
 		p[0] ^= 0xff
 	}
